@@ -306,7 +306,7 @@ theorem hmacBlock_trailing_nul (hash : Bytes → Bytes) (pass : Bytes) (h : pass
 
 /-- COUNTER-EXAMPLE to "accepts only the exact passphrase" — for EVERY KDF instance, so also for the real scrypt:
 a key created from `pass` (shorter than 64 bytes) is re-derived, with ErrInvalidPassword NOT raised, from
-`pass ‖ 0x00`. Reproduced on the real code by engine `crypto` (oracle key `derive.hmac-equivalent-pass-accepted`). -/
+`pass ‖ 0x00`. Reproduced on the real code by engine `crypto` (oracle key `DeriveKey.trailing-NUL-passphrase`). -/
 theorem C17_counterexample_trailing_nul (K : KDF) (salt pass : Bytes) (N R P : Int) (sk : SecretKey)
     (hl : pass.length < 64) (h : newSecretKey K salt pass N R P = .ok sk) :
     pass ++ [0] ≠ pass ∧ sk.zero.deriveKey K (pass ++ [0]) = (sk, .ok ()) := by
@@ -454,6 +454,45 @@ theorem C17_mgr_unlock_wrong_pass_partial (A : AEAD) (K : KDF) (B : Bytes → Pr
     simp only at hd
     subst hd
     simp [Mgr.lock, SecretKey.zero]
+/-! ## ChangePassphrase -/
+
+/-- A failing `ChangePassphrase` changes nothing, neither in memory nor on disk. -/
+theorem C17_mgr_changepass_failure_unchanged (A : AEAD) (K : KDF) (m : Mgr) (d : MgrDisk) (r : ChangeRand)
+    (old new : Bytes) (priv : Bool) (N R P : Int) (e : MgrErr)
+    (h : (m.changePassphrase A K d r old new priv N R P).2.2 = .error e) :
+    (m.changePassphrase A K d r old new priv N R P).1 = m ∧ (m.changePassphrase A K d r old new priv N R P).2.1 = d := by
+  unfold Mgr.changePassphrase at h ⊢
+  cases priv <;> simp only [Bool.false_and, Bool.true_and, if_false, if_true, Bool.false_eq_true] at h ⊢
+  all_goals (repeat' split)
+  all_goals (first | exact ⟨rfl, rfl⟩ | simp_all)
+
+theorem changepass_priv_ok_shape (A : AEAD) (K : KDF) (m : Mgr) (d : MgrDisk) (r : ChangeRand)
+    (old new : Bytes) (N R P : Int) (hu : m.locked = false)
+    (h : (m.changePassphrase A K d r old new true N R P).2.2 = .ok ()) :
+    (m.changePassphrase A K d r old new true N R P).1.privPass = some new ∧
+    (m.changePassphrase A K d r old new true N R P).1.locked = false ∧
+    (m.changePassphrase A K d r old new true N R P).1.watchOnly = false := by
+  unfold Mgr.changePassphrase at h ⊢
+  simp only [Bool.true_and, if_true] at h ⊢
+  repeat' split
+  all_goals simp_all
+
+/-- After the private passphrase was changed on an UNLOCKED manager, the still-unlocked manager accepts exactly the new
+passphrase: `Unlock(new)` succeeds and leaves it unlocked, `Unlock(p)` for any other `p` (the old one included) fails
+with ErrWrongPassphrase and locks. -/
+theorem C17_mgr_changepass_unlocked (A : AEAD) (K : KDF) (m : Mgr) (d : MgrDisk) (r : ChangeRand)
+    (old new : Bytes) (N R P : Int) (hu : m.locked = false)
+    (h : (m.changePassphrase A K d r old new true N R P).2.2 = .ok ()) :
+    let m' := (m.changePassphrase A K d r old new true N R P).1
+    m'.unlock A K new = (m', .ok ()) ∧ m'.locked = false ∧
+    ∀ p, p ≠ new → (m'.unlock A K p).2 = .error .wrongPassphrase ∧ (m'.unlock A K p).1.locked = true := by
+  obtain ⟨h1, h2, h3⟩ := changepass_priv_ok_shape A K m d r old new N R P hu h
+  intro m'
+  refine ⟨?_, h2, ?_⟩
+  · simp [Mgr.unlock, m', h1, h2, h3]
+  · intro p hp
+    have : ¬ (new = p) := fun e => hp e.symm
+    simp [Mgr.unlock, m', h1, h2, h3, this, Mgr.lock]
 /-! ## Non-vacuity: the hypotheses are satisfiable (toy instance), and a concrete evaluation -/
 
 example : Toy.aead.Correct := Toy.aead_correct
